@@ -235,6 +235,9 @@ func (fr *Frame) frameObligation(entry *MemState) {
 		if strings.HasPrefix(k, "IT") {
 			continue
 		}
+		if md := ex.S.Models[strings.TrimPrefix(k, "F_")]; strings.HasPrefix(k, "F_") && md != nil && md.Ghost {
+			continue // ghost registers are bookkeeping of the specs, not program state
+		}
 		var parts []string
 		for _, r := range fr.returns {
 			a, b := ex.memGet(entry, k), ex.memGet(r.mem, k)
